@@ -120,11 +120,16 @@ def OVR(m, i: tm.T) -> tm.T:
     return f(m.has, m.state, i)
 
 
-def OVR_unfold(m: SymMap, i: tm.T, name_tok=tok_str_t):
+def ovr_name_tok_t(t: tm.T) -> tm.T:
+    """Token of an override *name* (the real encoding: see StepHash.from_inp)."""
+    return tok_str_t(t)
+
+
+def OVR_unfold(m: SymMap, i: tm.T):
     arr, cnt = sorted_keys(m)
     k = tm.Select(arr, i, STR)
     val = tm.Select(m.state, k, STR)
-    step = tm.Concat(name_tok(k), tok_str_t(val))
+    step = tm.Concat(ovr_name_tok_t(k), tok_str_t(val))
     return [
         tm.Eq(OVR(m, tm.mk_int(0)), tm.mk_str("")),
         tm.Implies(tm.And(tm.Le(tm.mk_int(0), i), tm.Lt(i, cnt)),
